@@ -269,7 +269,7 @@ func (w *World) enabled() []Action {
 			booting = true
 		}
 	}
-	if pendingReplies && (!cfg.DelayFaults || booting && !cfg.BootFaults) {
+	if pendingReplies && (!cfg.DelayFaults || booting && !cfg.BootFaults) || w.scn.HoldClock(w) {
 		advW, advEvW = 0, 0
 	}
 	acts = append(acts, Action{ID: "adv|event", W: advEvW, Do: func() {
@@ -325,23 +325,28 @@ func (w *World) advanceUntilEvent(max time.Duration) {
 }
 
 func (w *World) chooseAndRun(acts []Action) {
-	weights := make([]int, len(acts))
-	any := false
-	for i, a := range acts {
-		weights[i] = a.W
+	// only actions with a positive weight are enabled (a zero weight disables a fault kind for this
+	// configuration); the tape addresses the enabled ones, in exploration and in replay alike, so a
+	// minimised tape cannot wander into a fault space the configuration had switched off
+	var cand []Action
+	for _, a := range acts {
 		if a.W > 0 {
-			any = true
+			cand = append(cand, a)
 		}
 	}
-	if !any {
-		for i := range weights {
+	if len(cand) == 0 {
+		cand = acts
+	}
+	weights := make([]int, len(cand))
+	for i, a := range cand {
+		weights[i] = a.W
+		if a.W <= 0 {
 			weights[i] = 1
 		}
 	}
-	// In replay, zero-weight actions stay addressable (index space = all enabled actions).
-	i := w.tape.Draw(len(acts), weights)
-	w.jl(&journal.Ev{K: journal.KStep, Vb: -1, ID: acts[i].ID, I: int64(i), U: uint64(len(acts))})
-	acts[i].Do()
+	i := w.tape.Draw(len(cand), weights)
+	w.jl(&journal.Ev{K: journal.KStep, Vb: -1, ID: cand[i].ID, I: int64(i), U: uint64(len(cand))})
+	cand[i].Do()
 }
 
 // tick moves the clock by a tiny, step-specific amount after every decision, so that two goroutines
